@@ -287,6 +287,23 @@ func c11Watch(x *X) {
 				}
 			case len(c.Args) == 1 && is(c.Args[0], "next") && len(as.Lhs) == 2:
 				role[c11IdentName(as.Lhs[0])] = "certs"
+			default:
+				// one poll extracted into an unexported helper that is handed the loader: its results are named by
+				// what the helper's own return statements put there (the loader's result, what was made from it)
+				name := c11Callee(c)
+				passesLoader := false
+				for _, a := range c.Args {
+					passesLoader = passesLoader || is(a, "loadFn")
+				}
+				if passesLoader && name != "" && !strings.Contains(name, ".") && !ast.IsExported(name) {
+					if callee := x.anyFuncDecl(c11Dir, name); callee != nil {
+						for i, r := range c11HelperResultRoles(callee) {
+							if i < len(as.Lhs) && r != "" {
+								role[c11IdentName(as.Lhs[i])] = r
+							}
+						}
+					}
+				}
 			}
 		} else if as.Tok == token.ASSIGN && len(as.Lhs) == 1 && is(as.Rhs[0], "next") {
 			role[c11IdentName(as.Lhs[0])] = "last"
@@ -462,28 +479,98 @@ func c11Watch(x *X) {
 	// how the made certificates leave the loop: every send statement of the function, those that are a case of a
 	// select (a select with a default branch can drop a publication when the consumer is slow), whether the send
 	// hands the value made from the loaded material to the channel parameter, and goroutines started by watch
+	// Counted over watch with every unexported same-package callee followed (the name bound to the channel parameter
+	// is carried along), so that moving the send into a helper hides nothing.
 	sends, inSelect, goStmts := 0, 0, 0
-	sendOK := false
+	sendOK := false          // some send hands the value made from the loaded material to the channel parameter
+	allOnParam := true       // every send is on the channel parameter
+	var scan func(body ast.Node, chName string, top bool, depth int)
+	scan = func(body ast.Node, chName string, top bool, depth int) {
+		ast.Inspect(body, func(n ast.Node) bool {
+			switch v := n.(type) {
+			case *ast.SendStmt:
+				sends++
+				if c11IdentName(v.Chan) == "" || c11IdentName(v.Chan) != chName {
+					allOnParam = false
+				}
+				if top && is(v.Chan, "ch") && is(v.Value, "certs") {
+					sendOK = true
+				}
+			case *ast.CommClause:
+				if _, ok := v.Comm.(*ast.SendStmt); ok {
+					inSelect++
+				}
+			case *ast.GoStmt:
+				goStmts++
+			case *ast.CallExpr:
+				name := c11Callee(v)
+				if depth < 4 && name != "" && !strings.Contains(name, ".") && !ast.IsExported(name) {
+					if callee := x.anyFuncDecl(c11Dir, name); callee != nil && callee != fd {
+						cps := c11ParamNames(callee)
+						bound := ""
+						for i, a := range v.Args {
+							if i < len(cps) && chName != "" && c11IdentName(a) == chName {
+								bound = cps[i]
+							}
+						}
+						scan(callee.Body, bound, false, depth+1)
+					}
+				}
+			}
+			return true
+		})
+	}
+	scan(fd.Body, ps[0], true, 0)
+	x.defNat("watchSends", uint64(sends))
+	x.defNat("watchSendsInSelect", uint64(inSelect))
+	x.defBool("watchSendsOnChannelParam", allOnParam)
+	x.defBool("watchSendsMadeCertsOnChannelParam", sendOK)
+	x.defNat("watchGoStmts", uint64(goStmts))
+}
+
+// c11HelperResultRoles says, for a helper that performs the poll of watch, which of its results is the loaded
+// material ("next": assigned from a call of a func-typed parameter) and which the certificates made from it
+// ("certs": assigned from a one-argument call on that material), judged by its last return statement.
+func c11HelperResultRoles(fd *ast.FuncDecl) []string {
+	funcParams := map[string]bool{}
+	if fd.Type.Params != nil {
+		for _, p := range fd.Type.Params.List {
+			if _, ok := p.Type.(*ast.FuncType); ok {
+				for _, n := range p.Names {
+					funcParams[n.Name] = true
+				}
+			}
+		}
+	}
+	role := map[string]string{}
 	ast.Inspect(fd.Body, func(n ast.Node) bool {
-		switch v := n.(type) {
-		case *ast.SendStmt:
-			sends++
-			if is(v.Chan, "ch") && is(v.Value, "certs") {
-				sendOK = true
+		as, ok := n.(*ast.AssignStmt)
+		if !ok || len(as.Rhs) != 1 {
+			return true
+		}
+		if c, ok := as.Rhs[0].(*ast.CallExpr); ok && len(as.Lhs) == 2 {
+			if funcParams[c11IdentName(c.Fun)] {
+				role[c11IdentName(as.Lhs[0])] = "next"
+			} else if len(c.Args) == 1 && role[c11IdentName(c.Args[0])] == "next" {
+				role[c11IdentName(as.Lhs[0])] = "certs"
 			}
-		case *ast.CommClause:
-			if _, ok := v.Comm.(*ast.SendStmt); ok {
-				inSelect++
-			}
-		case *ast.GoStmt:
-			goStmts++
 		}
 		return true
 	})
-	x.defNat("watchSends", uint64(sends))
-	x.defNat("watchSendsInSelect", uint64(inSelect))
-	x.defBool("watchSendsMadeCertsOnChannelParam", sendOK)
-	x.defNat("watchGoStmts", uint64(goStmts))
+	var last *ast.ReturnStmt
+	ast.Inspect(fd.Body, func(n ast.Node) bool {
+		if r, ok := n.(*ast.ReturnStmt); ok {
+			last = r
+		}
+		return true
+	})
+	var out []string
+	if last != nil {
+		for _, e := range last.Results {
+			out = append(out, role[c11IdentName(e)])
+		}
+	}
+	return out
 }
 
 // ---- TLSConfig / GetCertificate closure / getCertificate --------------------------------------------------------
@@ -522,7 +609,36 @@ func c11Handshake(x *X) {
 		x.defNat("handshakeAtomicLoads", uint64(loads))
 		x.defNat("handshakeDecisionCalls", uint64(decisions))
 	}
-	// updates: exactly one place applies a set, inside a range over the source's channel
+	// updates: exactly one place applies a set, inside the loop that receives from the source's channel - a
+	// `for v := range src.Certificates()` or, equivalently, a `for { v, ok := <-ch; if !ok { return }; … }` over a
+	// channel obtained from `src.Certificates()` (directly or through a local assigned from that call)
+	fromSource := map[string]bool{} // locals assigned from a .Certificates() call
+	ast.Inspect(fd.Body, func(n ast.Node) bool {
+		if as, ok := n.(*ast.AssignStmt); ok && len(as.Lhs) == 1 && len(as.Rhs) == 1 {
+			if c, ok := as.Rhs[0].(*ast.CallExpr); ok && c11Callee(c) == ".Certificates" {
+				if name := c11IdentName(as.Lhs[0]); name != "" {
+					fromSource[name] = true
+				}
+			}
+		}
+		return true
+	})
+	isSourceChan := func(e ast.Expr) bool {
+		if c, ok := e.(*ast.CallExpr); ok && c11Callee(c) == ".Certificates" {
+			return true
+		}
+		return fromSource[c11IdentName(e)]
+	}
+	countApply := func(b *ast.BlockStmt) int {
+		k := 0
+		ast.Inspect(b, func(m ast.Node) bool {
+			if c, ok := m.(*ast.CallExpr); ok && c11Callee(c) == ".SetCertificates" {
+				k++
+			}
+			return true
+		})
+		return k
+	}
 	apply, inRange := 0, 0
 	ast.Inspect(fd.Body, func(n ast.Node) bool {
 		switch v := n.(type) {
@@ -531,19 +647,26 @@ func c11Handshake(x *X) {
 				apply++
 			}
 		case *ast.RangeStmt:
-			if c, ok := v.X.(*ast.CallExpr); ok && c11Callee(c) == ".Certificates" {
-				ast.Inspect(v.Body, func(m ast.Node) bool {
-					if c, ok := m.(*ast.CallExpr); ok && c11Callee(c) == ".SetCertificates" {
-						inRange++
-					}
-					return true
-				})
+			if isSourceChan(v.X) {
+				inRange += countApply(v.Body)
+			}
+		case *ast.ForStmt:
+			// an explicit receive loop: the body receives from the source's channel
+			receives := false
+			ast.Inspect(v.Body, func(m ast.Node) bool {
+				if u, ok := m.(*ast.UnaryExpr); ok && u.Op == token.ARROW && isSourceChan(u.X) {
+					receives = true
+				}
+				return true
+			})
+			if receives {
+				inRange += countApply(v.Body)
 			}
 		}
 		return true
 	})
 	x.defNat("tlsConfigApplySites", uint64(apply))
-	x.defNat("tlsConfigApplySitesInRangeOverSource", uint64(inRange))
+	x.defNat("tlsConfigApplySitesInReceiveLoopOverSource", uint64(inRange))
 
 	// getCertificate (referenced by the hook): works on the value it is handed
 	gc := x.funcDecl(c11Dir, "", "getCertificate")
